@@ -11,6 +11,7 @@ CONSTANTS
  Script <- NoScript
  SerialPrefix = 0
  ObsPolicy = "any"
+ EmitOnly = "all"
  MaxOps = 5
  MaxConc = 3
  SameSubject = TRUE
@@ -23,6 +24,7 @@ CONSTANTS
  CowIndex = TRUE
  InvAfterDel = TRUE
  NormKey = TRUE
+ LockStyle = "global"
 INIT GInit
 NEXT GNext
 INVARIANTS Emit
